@@ -15,3 +15,4 @@ import JominiModel.Props.C14
 #print axioms Jomini.Props.C14.C14_known_header_empty_body_breaks
 #print axioms Jomini.Props.C14.C14_nested_roundtrip
 #print axioms Jomini.Props.C14.C14_roundtrip_full
+#print axioms Jomini.Props.C14.C14_failing_sink
